@@ -368,8 +368,11 @@ def run(tier, seed, replay=None):
         # x anchored or not.  The real side is _match_words in remote mode (no alias, no normalisation: the strings are used as
         # they are) and match_after's copy of the loop, compared with each other too (C19 shares the loop).
         import itertools
-        P_ATOMS = ["a", "b", " ", "*", "?", "[a]", "[!a]", " *"]          # every character class the loop distinguishes: literal, blank, each glob char, the ' *' suffix
-        C_ATOMS = ["a", "b", " ", "*"]
+        # every character class the loop distinguishes: literal, blank, each glob char, the ' *' suffix - and "/" with "**"
+        # (in a command rule "**" is two stars of fnmatch, and "*" / "?" match a "/": only redirect rules have the
+        # component-wise glob)
+        P_ATOMS = ["a", "b", " ", "*", "?", "[a]", "[!a]", " *", "/", "**", "**/"]
+        C_ATOMS = ["a", "b", " ", "*", "/"]
         pats = [""] + ["".join(t) for n in (1, 2, 3) for t in itertools.product(P_ATOMS, repeat=n)]
         cmds = [""] + ["".join(t) for n in (1, 2, 3, 4) for t in itertools.product(C_ATOMS, repeat=n)]
         if quick:
